@@ -1,6 +1,7 @@
 package main
 
 import (
+	"strings"
 	"fmt"
 	"go/token"
 
@@ -22,6 +23,12 @@ func init() {
 const dateDomLo, dateDomHi = -62135596800000, 253402300799999
 
 func rulesC10(w *World, r *Report) {
+	// a zero timestamp travels as null: as a list element it must be stored as
+	// its own (zero) value, not left to whatever a reused destination held
+	// (seeded C10m: one scratch cell per list, SetValue does nothing for null)
+	includeIf(w, r, "C01", "every element read for a typed list is stored as its own converted value", 2, func(o *Obligation) bool {
+		return strings.Contains(o.Key, "C01.R4") || strings.Contains(o.Key, "C01.R9")
+	})
 	w.dateEncoderForms(r, "C10.R1 compact form only when exact", "C10.R2 octet windows fit the value", "C10.R4 zero time is null", false, "")
 	w.ruleDecoderForms(r, "C10.R2 reader accepts both date forms", "date")
 	w.rulePairOctets(r, "C10.R2 encoder/decoder octet agreement", "date")
